@@ -1003,6 +1003,12 @@ func (c *Ctx) checkAge(r *Report, ret *ssa.Function, rm ssa.CallInstruction, gua
 		r.Undecided(key, c.instrPos(rm), "age test outside the recognised family: %v", seen)
 		return
 	}
+	for _, g := range guards {
+		if p := c.prov(g.Cond, fr).String(); strings.Contains(p, "ModTime") {
+			r.Undecided(key, c.instrPos(rm), "the modification time is tested in a form outside the recognised family (time.Time comparisons / durations linear in MaxAge): %s — integer arithmetic on MaxAge (e.g. in milliseconds) can overflow its int32 type and is not accepted", p)
+			return
+		}
+	}
 	r.Fail(key, c.instrPos(rm), "removal is not dominated by any modification-time test")
 }
 
@@ -1134,6 +1140,8 @@ func checkC20(c *Ctx, r *Report) {
 	}
 	// C20.console
 	c.checkStdoutInit(r)
+	// an acknowledged line is lost if the rotation step closes a file a concurrent writer may still hold
+	r.include("C20.handover/", "file-ownership", func(sub *Report) { c.checkFdBound(sub, ro) })
 	// thorough: no buffered writer anywhere below the synchronous appenders
 	var roots []*ssa.Function
 	for _, nt := range ro.LeafAppenders {
@@ -1338,6 +1346,8 @@ func checkC19(c *Ctx, r *Report) {
 			r.OK(key, "%d write(s) to %s, all under err == nil of the creation; error path returns normally", checked, cur.Name())
 		}
 	}
+	// a failed rotation must not leave the current file owned by a field that a later rotation closes
+	r.include("C19.ownership/", "file-ownership", func(sub *Report) { c.checkFdBound(sub, ro) })
 	// C19.swallow / no-panic: explicit panics, os.Exit, log.Fatal reachable from appender hot path
 	checkNoPanicHot(c, r, ro, "C19.no-panic-hot")
 	// C19.nil-file
